@@ -63,8 +63,10 @@ def shrink(binp, work, case_lines, key):
             i -= 1
     return header + ops
 
-def run_seq(ctx, profile, cases, model=None, keys_of_interest=None, seed_offset=0, tag=None, corpus=None, gen_extra=()):
-    """returns a Tie. model: name of the svdriver model whose protocol matches this profile."""
+def run_seq(ctx, profile, cases, model=None, keys_of_interest=None, seed_offset=0, tag=None, corpus=None, gen_extra=(), structs_trace=False):
+    """returns a Tie. model: name of the svdriver model whose protocol matches this profile.
+    structs_trace: also record the tracked-struct hook trace (class `ts`) of every case and replay it
+    through `svdriver structs` (see structs_common)."""
     tag = tag or profile
     t = Tie('seq-' + tag)
     t.rule = ('generated programs x histories (`vh seq gen --profile %s`, SplitMix64 from VERIF_SEED); distinct = distinct '
@@ -91,7 +93,8 @@ def run_seq(ctx, profile, cases, model=None, keys_of_interest=None, seed_offset=
                 body = f.read()
             with open(ops, 'w') as f:
                 f.write(extra + body)
-    rc, out, dt = sh([binp, 'run', '--ops', ops, '--out', imp], timeout=1200)
+    trp = os.path.join(ctx.work, 'seq-%s.trace' % tag)
+    rc, out, dt = sh([binp, 'run', '--ops', ops, '--out', imp] + (['--trace-out', trp, '--trace-cases', '25000'] if structs_trace else []), timeout=2400)
     if rc != 0:
         raise HarnessError('seq run failed (rc=%d): %s' % (rc, out[-800:]))
     rc, out, _ = sh([binp, 'oracle', '--ops', ops, '--impl', imp], timeout=1200)
@@ -133,6 +136,9 @@ def run_seq(ctx, profile, cases, model=None, keys_of_interest=None, seed_offset=
             text = '\n'.join(lines[ci[0]:ci[1]]) + '\n' if ci else op + '\n'
             rp = ctx.save_replay('seq-%s-model-line%d.ops' % (tag, ln), text)
             t.failures.append(Failure('model', '%s line %d `%s`: impl `%s` vs model `%s` (%d mismatching lines)' % (tag, ln, op[:120], a[:160], b[:160], total), replay=rp))
+    if structs_trace:
+        from structs_common import replay_trace_file
+        replay_trace_file(ctx, t, trp, 'seq-%s' % tag)
     # samples: a few actual cases
     for c in cs[:2]:
         t.samples.append({'case': lines[c[0]:min(c[1], c[0] + 14)]})
